@@ -219,3 +219,51 @@ CHECKS["C12"] = dict(
     min_nontrivial=20,
     jobs=[dict(cmd="c12", tiers=["quick", "thorough"], timeout=2400)],
 )
+
+CHECKS["C08"] = dict(
+    title="Every storable key/value round-trips through the disk format bit-exactly",
+    level="exploration",
+    rule=("part A: Code impls for u8..u128/usize/i8..i128/isize/f32/f64 (MIN, MAX, 0, 1, halves, 40 random bit patterns each), "
+          "bool, String (empty, multi-byte), Vec<u8>, Bytes of lengths 0..19 (quick) / 0..69 (thorough) and page/64 KiB boundaries: "
+          "decode(encode(x)) == x, bytes written == estimated_size(), and encoding into EVERY shorter destination among the first "
+          "40, the last 3 and every 997th length must fail with BufferSizeLimit (never Ok, never another kind). part B: the real "
+          "pipeline insert -> flusher -> device -> load for values Vec<u8>/String/Bytes x keys u64/String x compression None/Zstd/"
+          "Lz4 (hook) with lengths 0,1,2,7,8,100, page-60..page+1, the per-entry maximum -200..+1 page, 2x maximum and random, "
+          "compressible and incompressible: the loaded value equals the original or the entry is absent as a whole; an entry whose "
+          "raw size fits a block must not be absent. Non-trivial = a value round-tripped; distinct = hash(type, value or length)."),
+    assumptions=["the `serde` (bincode) Code path is not compiled into the harness (feature off); only the built-in impls are judged",
+                 "String payloads are ASCII in the pipeline part (multi-byte strings are covered in part A)"],
+    min_nontrivial=50,
+    jobs=[dict(cmd="c08", tiers=["quick", "thorough"], timeout=2400)],
+)
+
+CHECKS["C15"] = dict(
+    title="A graceful close persists what memory held",
+    level="exploration",
+    rule=("seeded plans: resident sets of 0, 1, the flush-buffer limit and random sizes in between; per key default or in-memory-only "
+          "advice, a third of the keys with an older copy already on disk; both policies, flush_on_close on (3/4) and off, 1..2 "
+          "flushers, tombstone log on/off, 16 blocks so that nothing is reclaimed; one plan in six drops the cache without close. "
+          "Oracle: with flush_on_close every key resident (memory().contains) right before close() and not in-memory-only reads its "
+          "latest version after reopen; in-memory-only entries are not served from disk; with flush_on_close off the set of entry "
+          "copies on the device (independent parser) is identical before and after close(); a second close() succeeds and issues "
+          "no device write; insert/evict/remove after close do not panic and issue no device write; after drop-without-close the "
+          "reopened store serves no wrong version. Non-trivial = at least one entry was resident at close; distinct = hash(plan)."),
+    assumptions=HYB_ASSUME,
+    min_nontrivial=20,
+    jobs=[dict(cmd="c15", tiers=["quick", "thorough"], timeout=2400)],
+)
+
+CHECKS["C17"] = dict(
+    title="Hash collisions between distinct keys never alias their entries",
+    level="exploration",
+    rule=("two monitors with a harness BuildHasher (hash = key / 4: keys 0..3 share the full 64-bit hash, other keys only the shard): "
+          "(a) the C02 concurrent-history monitor on the memory cache (linearizability per key + foreign-value detection, incl. "
+          "get_or_fetch whose in-flight table is also keyed by hash), (b) the C01 scripted-history monitor on the hybrid cache "
+          "(write queue, disk index by hash alone, overwrite/remove of one of the pair, close+reopen, both policies). Oracle: a "
+          "lookup for k returns a value whose embedded key is k and that is not stale, or a miss. Non-trivial / distinct as in "
+          "C02 and C01."),
+    assumptions=LIN_ASSUME + HYB_ASSUME,
+    min_nontrivial=20,
+    jobs=[dict(cmd="c17mem", tiers=["quick", "thorough"], timeout=1500),
+          dict(cmd="c17hyb", tiers=["quick", "thorough"], timeout=2400)],
+)
